@@ -446,11 +446,57 @@ func c09CapturedNode(c *Ctx, p *core.Prog) {
 							}
 						}
 					}
+					when := "when the literal was created"
+					if origin == nil {
+						// the node is put into the captured variable by the literal itself or by a literal nested in it
+						// (sync.Once.Do(func() { cond = parse(…) })): it stays there between runs unless the literal
+						// itself assigns it afresh before every read
+						var inLit func(l *ssa.Function, fv *ssa.FreeVar, depth int)
+						inLit = func(l *ssa.Function, fv *ssa.FreeVar, depth int) {
+							if depth > 3 {
+								return
+							}
+							for _, lb := range l.Blocks {
+								for _, lin := range lb.Instrs {
+									switch x := lin.(type) {
+									case *ssa.Store:
+										if x.Addr != ssa.Value(fv) {
+											continue
+										}
+										oc := fromCall(x.Val, 0)
+										if oc == nil {
+											continue
+										}
+										fresh := l == lit
+										if fresh {
+											for _, ref := range core.Referrers(fv) {
+												if u, ok := ref.(*ssa.UnOp); ok && u.Op == token.MUL && !(lb == u.Block() || lb.Dominates(u.Block())) {
+													fresh = false
+												}
+											}
+										}
+										if !fresh {
+											origin = oc
+											when = "on an earlier run and kept in the captured variable (assigned under sync.Once / a first-time test, not afresh on every run)"
+										}
+									case *ssa.MakeClosure:
+										nl, _ := x.Fn.(*ssa.Function)
+										for j, nb := range x.Bindings {
+											if nb == ssa.Value(fv) && nl != nil && j < len(nl.FreeVars) {
+												inLit(nl, nl.FreeVars[j], depth+1)
+											}
+										}
+									}
+								}
+							}
+						}
+						inLit(lit, lit.FreeVars[i], 0)
+					}
 					if origin == nil {
 						continue
 					}
 					seq++
-					r.Violate("captured-node", core.FnName(fn)+sprintf("|capture#%d", seq), p.FnPos(fn), "the function literal created here escapes and captures `"+lit.FreeVars[i].Name()+"`, an AST node obtained from "+origin.Call.StaticCallee().Name()+"() when the literal was created: every run of the literal uses that same node, so trees it is applied to share it (releasing one corrupts the others)")
+					r.Violate("captured-node", core.FnName(fn)+sprintf("|capture#%d", seq), p.FnPos(fn), "the function literal created here escapes and captures `"+lit.FreeVars[i].Name()+"`, an AST node obtained from "+origin.Call.StaticCallee().Name()+"() "+when+": every run of the literal uses that same node, so trees it is applied to share it (releasing one corrupts the others)")
 				}
 			}
 		}
